@@ -337,33 +337,39 @@ type cand struct {
 }
 
 // baseCands lists the instants a planner may derive from one end of the request: the parameter itself, truncated to
-// seconds, to 15 s, to the range bucket (floor, proper ceiling, floor + one bucket).
+// seconds, to milliseconds, to 15 s, to the range bucket (floor, proper ceiling, floor + one bucket). The proper ceiling
+// comes in two kinds: "ceilp" of the exact instant, "ceilps" of the instant truncated to the second first (they differ
+// when the instant has a fraction and its second is aligned: Window.tla Derive).
 func baseCands(v int64, bucket int64) []cand {
 	sec := floorTo(v, secNs)
-	cs := []cand{{"none", v}, {"sec", sec}, {"ms", floorTo(v, 1e6)}, {"s15:floor", floorTo(sec, s15Ns)}, {"s15:ceilp", ceilTo(sec, s15Ns)}, {"s15:ceilx", floorTo(sec, s15Ns) + s15Ns}}
+	cs := []cand{{"none", v}, {"sec", sec}, {"ms", floorTo(v, 1e6)}, {"s15:floor", floorTo(sec, s15Ns)}, {"s15:ceilp", ceilTo(v, s15Ns)}, {"s15:ceilps", ceilTo(sec, s15Ns)},
+		{"s15:ceilx", floorTo(sec, s15Ns) + s15Ns}}
 	if bucket > 0 {
 		// time.Time.Truncate rounds relative to the zero time (year 1), not to the Unix epoch
 		tt := time.Unix(0, sec).Truncate(time.Duration(bucket)).UnixNano()
 		cs = append(cs, cand{"bucket:floor", tt}, cand{"bucket:ceilx", tt + bucket})
 		cs = append(cs, cand{"bucket:floor", floorTo(tt, s15Ns)}, cand{"bucket:ceilx", floorTo(tt+bucket, s15Ns)})
-		cs = append(cs, cand{"bucket:floor", floorTo(sec, bucket)}, cand{"bucket:ceilp", ceilTo(sec, bucket)}, cand{"bucket:ceilx", floorTo(sec, bucket) + bucket})
+		cs = append(cs, cand{"bucket:floor", floorTo(sec, bucket)}, cand{"bucket:ceilp", ceilTo(v, bucket)}, cand{"bucket:ceilps", ceilTo(sec, bucket)}, cand{"bucket:ceilx", floorTo(sec, bucket) + bucket})
 		cs = append(cs, cand{"bucket:floor", floorTo(floorTo(sec, bucket), s15Ns)}, cand{"bucket:ceilx", floorTo(floorTo(sec, bucket)+bucket, s15Ns)})
 	}
 	return cs
 }
 
-// tsLabels: which derivations of the request produce the literal n. side "lo": derived from Start (minus lookback),
-// "hi": from End.
+// tsLabels: which derivations of the request produce the literal n. side "lo": derived from Start (minus lookback and
+// offset), "hi": from End (minus offset). "<derivation>~sub": the literal lies in the second of that derivation, at or
+// below it (Window.tla BoundLit sub: a bound whose sub-second part was lost or garbled on the way to the statement; the
+// exact literal carries both labels, the exact one is preferred).
 func tsLabels(n int64, ep *Endpoint, w Win) []string {
 	set := map[string]bool{}
-	for _, c := range baseCands(effStart(ep, w), int64(ep.Bucket)) {
-		if c.Val-int64(ep.Lookback) == n {
-			set["from:"+c.Label] = true
-		}
-	}
-	for _, c := range baseCands(w.End, int64(ep.Bucket)) {
-		if c.Val == n {
-			set["to:"+c.Label] = true
+	for side, p := range map[string][2]int64{"from:": {effStart(ep, w), int64(ep.Lookback) + int64(ep.Offset)}, "to:": {w.End, int64(ep.Offset)}} {
+		for _, c := range baseCands(p[0], int64(ep.Bucket)) {
+			x := c.Val - p[1]
+			if x == n {
+				set[side+c.Label] = true
+			}
+			if floorTo(x, secNs) <= n && n <= x {
+				set[side+c.Label+"~sub"] = true
+			}
 		}
 	}
 	return keys(set)
@@ -372,7 +378,7 @@ func tsLabels(n int64, ep *Endpoint, w Win) []string {
 func dateLabels(day int64, ep *Endpoint, w Win) []string {
 	set := map[string]bool{}
 	for _, c := range baseCands(effStart(ep, w), int64(ep.Bucket)) {
-		b := c.Val - int64(ep.Lookback)
+		b := c.Val - int64(ep.Lookback) - int64(ep.Offset)
 		if utcDay(b-m30Ns) == day {
 			set["utcFromM30"] = true
 		}
@@ -387,16 +393,17 @@ func dateLabels(day int64, ep *Endpoint, w Win) []string {
 		}
 	}
 	for _, c := range baseCands(w.End, int64(ep.Bucket)) {
-		if utcDay(c.Val) == day {
+		e := c.Val - int64(ep.Offset)
+		if utcDay(e) == day {
 			set["utcTo"] = true
 		}
-		if localDay(c.Val, time.Local) == day {
+		if localDay(e, time.Local) == day {
 			set["localTo"] = true
 		}
-		if utcDay(c.Val-m30Ns) == day {
+		if utcDay(e-m30Ns) == day {
 			set["utcToM30"] = true
 		}
-		if localDay(c.Val-m30Ns, time.Local) == day {
+		if localDay(e-m30Ns, time.Local) == day {
 			set["localToM30"] = true
 		}
 	}
